@@ -20,7 +20,7 @@ Section Utf8Text.
 
   Lemma single_of_low c b0 t : wf_char c = true -> c = b0 :: t -> b0 < 128 -> c = [b0] /\ dec c = b0.
   Proof.
-    intros Hc -> Hlt. destruct (wf_facts (b0 :: t) Hc) as (_ & _ & b & t' & E & _ & _ & _ & _ & Hone).
+    intros Hc -> Hlt. destruct (wf_facts (b0 :: t) Hc) as (_ & _ & b & t' & E & _ & _ & _ & _ & Hone & _).
     inversion E; subst. rewrite (Hone Hlt). split; reflexivity.
   Qed.
 
